@@ -260,6 +260,8 @@ def check_operator(ctx, op):
             ctx.ok(R + "R6", it, t, "tail %s drains side %s" % (tag, tag),
                    text_="%s tail %s" % (op, tag))
             _check_emission(ctx, it, op, rel, ys[0], t.body, A, B, tail=True)
+    if op == "__and__":
+        _padding(ctx, it, A, B)
     # operators assert the stream precondition
     pre = [n for n in f.own_nodes() if isinstance(n, ast.Assert) and
            "_ordered" in text(n.test) and "_unique" in text(n.test)]
@@ -269,6 +271,169 @@ def check_operator(ctx, op):
         ctx.bad(R + "R1", f, f.node, "%s no longer asserts that the fiber is "
                 "ordered and unique (the merge schema's precondition)" % op,
                 text_="%s precondition" % op)
+
+
+# -- R7: arity of the ANY-padded projection ---------------------------------
+
+def _lin_add(a, b, k=1):
+    out = dict(a)
+    for s_, c in b.items():
+        out[s_] = out.get(s_, 0) + k * c
+        if out[s_] == 0:
+            del out[s_]
+    return out
+
+
+def _arity_vars(it, A, B):
+    """{var name: side tag} for `v = len(head) if isinstance(head, tuple)
+    else 1`."""
+    out = {}
+    for n in it.own_nodes():
+        if isinstance(n, ast.Assign) and len(n.targets) == 1 and \
+                isinstance(n.targets[0], ast.Name) and isinstance(n.value, ast.IfExp):
+            v = n.value
+            for S in (A, B):
+                if text(v.test).replace(" ", "") == "isinstance(%s,tuple)" % S.head \
+                        and text(v.body).replace(" ", "") == "len(%s)" % S.head \
+                        and text(v.orelse) == "1":
+                    out[n.targets[0].id] = S.tag
+    return out
+
+
+def _tuple_len(ctx, it, e, env, depth=0):
+    """Symbolic length of a tuple-valued expression as a linear form over
+    {'1', 'A', 'B'} (arity of side A / B), or None."""
+    if depth > 6:
+        return None
+    if isinstance(e, ast.Tuple):
+        if any(isinstance(x, ast.Starred) for x in e.elts):
+            return None
+        return {"1": len(e.elts)} if e.elts else {}
+    if isinstance(e, ast.BinOp) and isinstance(e.op, ast.Add):
+        l = _tuple_len(ctx, it, e.left, env, depth + 1)
+        r = _tuple_len(ctx, it, e.right, env, depth + 1)
+        return None if l is None or r is None else _lin_add(l, r)
+    if isinstance(e, ast.BinOp) and isinstance(e.op, ast.Mult):
+        for t, k in ((e.left, e.right), (e.right, e.left)):
+            tl = _tuple_len(ctx, it, t, env, depth + 1)
+            if tl is not None and set(tl) <= {"1"}:
+                kk = _int_lin(ctx, it, k, env, depth + 1)
+                if kk is not None:
+                    return {s_: c * tl.get("1", 0) for s_, c in kk.items()
+                            if c * tl.get("1", 0)}
+        return None
+    if isinstance(e, ast.Name):
+        if e.id in env:
+            return env[e.id]
+        v = pat.single_def(ctx, it, e)
+        if v is not None:
+            return _tuple_len(ctx, it, v, env, depth + 1)
+    return None
+
+
+def _int_lin(ctx, it, e, env, depth=0):
+    if depth > 6:
+        return None
+    if isinstance(e, ast.Constant) and isinstance(e.value, int):
+        return {"1": e.value} if e.value else {}
+    if isinstance(e, ast.Name):
+        if e.id in env.get("#arity", {}):
+            return {env["#arity"][e.id]: 1}
+        v = pat.single_def(ctx, it, e)
+        if v is not None:
+            return _int_lin(ctx, it, v, env, depth + 1)
+        return None
+    if isinstance(e, ast.BinOp) and isinstance(e.op, (ast.Add, ast.Sub)):
+        l = _int_lin(ctx, it, e.left, env, depth + 1)
+        r = _int_lin(ctx, it, e.right, env, depth + 1)
+        if l is None or r is None:
+            return None
+        return _lin_add(l, r, 1 if isinstance(e.op, ast.Add) else -1)
+    return None
+
+
+def _padding(ctx, it, A, B):
+    """A shorter-arity operand is projected through a lambda that pads its
+    coordinates with ANY; tuples compare equal only at equal length, so the
+    padded coordinate must have exactly the longer side's arity."""
+    R = "C04.R7"
+    av = _arity_vars(it, A, B)
+    n = 0
+    for c in it.own_nodes():
+        if not (isinstance(c, ast.Call) and isinstance(c.func, ast.Attribute)
+                and c.func.attr == "project"):
+            continue
+        side = None
+        for S in (A, B):
+            if text(c.func.value) == "self." + S.fiber_attr:
+                side = S
+        lam = pat.kwarg(c, "trans_fn", 0)
+        if side is None or not isinstance(lam, ast.Lambda):
+            continue
+        n += 1
+        other = B if side is A else A
+        if set(av.values()) != {"A", "B"}:
+            ctx.bad(R, it, c, "__and__: the arities of the two heads are no "
+                    "longer computed as `len(head) if isinstance(head, tuple) "
+                    "else 1`", text_="padding arity vars")
+            return
+        # which case: relation of the arity variables, and int-ness of the head
+        poss = {"lt", "eq", "gt"}       # arity(side) ? arity(other)
+        is_int = None
+        for t, pol in guards(enclosing_stmt(c)):
+            p = pat.cmp_raw(t, pol)
+            if p and p[1] in av and p[2] in av and av[p[1]] != av[p[2]]:
+                op_, l_ = p[0], av[p[1]]
+                rel = {"==": {"eq"}, "!=": {"lt", "gt"}, "<": {"lt"},
+                       "<=": {"lt", "eq"}}.get(op_)
+                if rel is None:
+                    continue
+                if l_ != side.tag:
+                    rel = {{"lt": "gt", "gt": "lt", "eq": "eq"}[r] for r in rel}
+                poss &= rel
+            tt = text(t).replace(" ", "")
+            if tt == "isinstance(%s,int)" % side.head:
+                is_int = pol
+            elif tt == "isinstance(%s,tuple)" % side.head:
+                is_int = not pol
+        if poss != {"lt"}:
+            ctx.bad(R, it, c, "__and__: operand %s is re-projected with padded "
+                    "coordinates outside the branch where its arity is the "
+                    "smaller one (arity relation here: %s)"
+                    % (side.fiber_attr, sorted(poss)),
+                    text_="padding %s case" % side.tag)
+            continue
+        if len(lam.args.args) != 1:
+            ctx.bad(R, it, c, "__and__: padding trans_fn must take one "
+                    "coordinate", text_="padding %s lambda" % side.tag)
+            continue
+        prm = lam.args.args[0].arg
+        env = {"#arity": av}
+        if is_int is False:
+            env[prm] = {side.tag: 1}
+        got = _tuple_len(ctx, it, lam.body, env)
+        kind = "int" if is_int else "tuple" if is_int is False else "unknown-kind"
+        want = {other.tag: 1}
+        if got == want:
+            ctx.ok(R, it, c, "%s coordinate of operand %s padded to the longer "
+                   "arity" % (kind, side.fiber_attr),
+                   text_="padding %s %s" % (side.tag, kind))
+        else:
+            ctx.bad(R, it, c, "__and__: the %s coordinates of the shorter "
+                    "operand %s are padded by `%s` to arity %s, not to the "
+                    "longer operand's arity: padded tuples of the wrong length "
+                    "never compare equal, so a prefix match yields nothing"
+                    % (kind, side.fiber_attr, text(lam)[:60],
+                       _lin_text(got)), text_="padding %s %s" % (side.tag, kind))
+    ctx.floor(R, n, 4, "ANY-padded projections")
+
+
+def _lin_text(l):
+    if l is None:
+        return "<not a fixed-arity tuple>"
+    names = {"A": "arity(a)", "B": "arity(b)", "1": "1"}
+    return " + ".join("%s*%s" % (c, names[s_]) if s_ != "1" else str(c)
+                      for s_, c in sorted(l.items())) or "0"
 
 
 def _branches(ctx, f, loop, A, B):
